@@ -9,10 +9,14 @@ git -C /repo worktree add -q --detach $WT HEAD || exit 2
 cleanup() { git -C /repo worktree remove --force $WT 2>/dev/null; rm -rf $WT; }
 trap cleanup EXIT
 if ! git -C $WT apply $OUT/patch$K.diff 2>/tmp/seed_apply_err; then
-  echo "PATCH-DOES-NOT-APPLY $(head -2 /tmp/seed_apply_err)"; exit 3
+  # written against an earlier commit: retry with context fuzz
+  if ! ( cd $WT && patch -p1 -s --no-backup-if-mismatch < $OUT/patch$K.diff ) 2>>/tmp/seed_apply_err; then
+    echo "PATCH-DOES-NOT-APPLY $(head -2 /tmp/seed_apply_err)"; exit 3
+  fi
 fi
 mkdir -p /verif/seeded/$SID
-cp $OUT/patch$K.diff /verif/seeded/$SID/patch.diff
+# store the change as a diff against the current HEAD of /repo
+git -C $WT diff > /verif/seeded/$SID/patch.diff
 cp $OUT/demo$K.py /verif/seeded/$SID/demo.py
 ( cd /tmp && PYTHONPATH=/repo timeout 600 /venv/bin/python $OUT/demo$K.py > /tmp/seed_demo_clean.log 2>&1 ); RC_CLEAN=$?
 ( cd /tmp && PYTHONPATH=$WT timeout 600 /venv/bin/python $OUT/demo$K.py > /tmp/seed_demo_mut.log 2>&1 ); RC_MUT=$?
